@@ -55,6 +55,9 @@ def r_s(s, holes):
     if isinstance(s, LoopIR.For):
         return f"for {s.iter} in seq({r_e(s.lo, holes, (('lo', None),))}, {r_e(s.hi, holes, (('hi', None),))}): _"
     if isinstance(s, LoopIR.If):
+        if ("orelse",) in holes:
+            # pattern WITH an else clause: denotes only ifs that have one
+            return f"if {r_e(s.cond, holes, (('cond', None),))}:\n    _\nelse:\n    _"
         return f"if {r_e(s.cond, holes, (('cond', None),))}: _"
     if isinstance(s, LoopIR.Alloc):
         return f"{s.name}: _"
@@ -124,6 +127,8 @@ def eq_s(p, s, holes):
     if isinstance(p, LoopIR.For):
         return str(p.iter) == str(s.iter) and all_([eq_e(p.lo, s.lo, holes, (("lo", None),)), eq_e(p.hi, s.hi, holes, (("hi", None),))])
     if isinstance(p, LoopIR.If):
+        if ("orelse",) in holes and not s.orelse:
+            return False
         return eq_e(p.cond, s.cond, holes, (("cond", None),))
     if isinstance(p, LoopIR.Alloc):
         return str(p.name) == str(s.name)
@@ -163,6 +168,8 @@ def stmt_hole_candidates(s):
         c += expr_paths(s.lo, (("lo", None),)) + expr_paths(s.hi, (("hi", None),))
     elif isinstance(s, LoopIR.If):
         c += expr_paths(s.cond, (("cond", None),))
+        if s.orelse:
+            c += [("orelse",)] * 3
     return c
 
 
